@@ -122,28 +122,29 @@ impl<W> AdjacencyListWeighted<W> {
         }
     @*/
 
-    /*@fn impl=AdjacencyListWeighted trait=Outdegree name=outdegree
-    requires
-        u < self.ord(),
+    // no precondition: `self.arcs[u]` panics for u outside V (rule E4b), as the trait documents
+    /*@fn impl=AdjacencyListWeighted trait=Outdegree name=outdegree safeindex
     ensures
+        u < self.ord(),
         r == self.row(u as int).dom().len(),
     @*/
 
-    /*@fn impl=AdjacencyListWeighted trait=Outdegree name=is_sink
-    requires
-        u < self.ord(),
+    /*@fn impl=AdjacencyListWeighted trait=Outdegree name=is_sink safeindex
     ensures
+        u < self.ord(),
         r == (forall|b: int| !self.has(u as int, b)),
     @fn_start
         proof {
-            let m = self.arcs@[u as int]@;
-            if m.dom().is_empty() {
-                assert forall|b: int| !self.has(u as int, b) by {
-                    if 0 <= b <= usize::MAX { assert(!m.dom().contains(b as usize)); }
+            if u < self.ord() {   // otherwise the indexing below panics
+                let m = self.arcs@[u as int]@;
+                if m.dom().is_empty() {
+                    assert forall|b: int| !self.has(u as int, b) by {
+                        if 0 <= b <= usize::MAX { assert(!m.dom().contains(b as usize)); }
+                    }
+                } else {
+                    let x = choose|x: usize| m.dom().contains(x);
+                    assert(self.has(u as int, x as int));
                 }
-            } else {
-                let x = choose|x: usize| m.dom().contains(x);
-                assert(self.has(u as int, x as int));
             }
         }
     @*/
@@ -162,10 +163,9 @@ impl<W: Clone> AdjacencyListWeighted<W> {
 /// `out_neighbors_weighted` at the instance W = isize: with a generic W, Verus cannot discharge the trait bounds of vstd's
 /// `Map` adapter axioms (`map_postcondition`) for the closure type, so the generic impl is verified at this instance only.
 impl AdjacencyListWeighted<isize> {
-    /*@fn impl=AdjacencyListWeighted trait=OutNeighborsWeighted name=out_neighbors_weighted subst="Iterator<Item=(usize,&Self::Weight)>=>Iterator<Item=(usize,&isize)>"
-    requires
-        u < self.ord(),
+    /*@fn impl=AdjacencyListWeighted trait=OutNeighborsWeighted name=out_neighbors_weighted subst="Iterator<Item=(usize,&Self::Weight)>=>Iterator<Item=(usize,&isize)>" safeindex
     ensures
+        u < self.ord(),
         r.obeys_prophetic_iter_laws(),
         r.decrease() is Some,
         forall|i: int| 0 <= i < r.remaining().len() ==> self.has(u as int, (#[trigger] r.remaining()[i]).0 as int)
